@@ -1,5 +1,7 @@
 ------------------------------ MODULE ApqTrace ------------------------------
-(* Trace validation for C15: histories of requests recorded against the     *)
+(* IMPLEMENTATION-LEVEL trace comparison for C15 (a rejection here is only  *)
+(* counted as implementation-level drift; the verdict is ApqPropTrace):     *)
+(* histories of requests recorded against the                               *)
 (* REAL gqlgen server (real AutomaticPersistedQuery extension, real LRU or  *)
 (* map cache, POST and GET transports) are checked to be behaviours of Apq. *)
 (*                                                                          *)
@@ -70,6 +72,7 @@ TReq ==
   /\ Step(Trace[l].req)
   /\ (IF Check
       THEN /\ out'.submit = Trace[l].out.submit
+           /\ out'.exec = Trace[l].out.exec
            /\ Coarse(out'.class) = Trace[l].out.class
            /\ out'.ops = Trace[l].out.ops
            /\ cache' = CacheOf(Trace[l].ents)
